@@ -86,7 +86,7 @@ PROPS = {
                 # what-if configurations that MUST fail (guards against a vacuous model): the short-read defect of the
                 # pinned tree on the request side, a right-aligned envelope prefix on the response side
                 whatif=[("MCFraming.tla", "framing_R2_asbuilt.cfg"), ("MCFramingW.tla", "framingw_W1_reframe_rightcopy.cfg")]),
-    "C09": dict(corpora=["stream_faults", "stream_zzfaults"], prefix="C09."),
+    "C09": dict(corpora=["stream_faults", "stream_zzfaults", "httpbody"], prefix="C09."),
     "C10": dict(corpora=["limits"], prefix="C10."),
     "C20": dict(corpora=["schema", "grpcwrap", "grpcwrap_json"], corpora_thorough=["schema", "schema_errors", "grpcwrap", "grpcwrap_errors", "grpcwrap_json"], prefix="C20."),
     "C11": dict(corpora=["stream_hostile", "stream_faults", "stream_errors", "stream_reject", "limits"], prefix="C11."),
